@@ -12,6 +12,8 @@
 #include <sys/wait.h>
 #include <sys/stat.h>
 #include <fcntl.h>
+#include <sys/syscall.h>
+#include <linux/futex.h>
 #include "vsched.h"
 #include "snoopy.h"
 #include "util/list-snoopy.h"
@@ -22,6 +24,7 @@ typedef int (*verif_rec_cb_t)(int, const char *, char *const[], char *const[]);
 extern verif_rec_cb_t verif_rec_cb;
 static int N, K, forkmode, forkdepth = 1;
 static unsigned long ptid[8]; static int rec_calls[8]; static int bad_ret[8];
+static int all_done;
 static __thread int me = -1;
 static int child_status = -1, child_reached = 0;
 static const char *resfile;
@@ -63,6 +66,10 @@ static void *body(void *arg) {
         for (int j = 0; j < K; j++) one_call(t, j);
     }
     vs_thread_end(t);
+    /* do not exit yet: a thread's teardown (sanitizer thread registry, libc stack cache) runs outside the scheduler's control and holds
+       internal locks; a fork() taken by another thread meanwhile would copy such a lock in the locked state into the child (a harness
+       artefact, seen as a rare child hang).  Finished threads stay parked until every thread is done. */
+    while (!__atomic_load_n(&all_done, __ATOMIC_ACQUIRE)) syscall(SYS_futex, &all_done, FUTEX_WAIT, 0, NULL, NULL, 0);
     return NULL;
 }
 int main(int argc, char **argv) {
@@ -76,6 +83,7 @@ int main(int argc, char **argv) {
     pthread_t th[8];
     for (long i = 0; i < N; i++) pthread_create(&th[i], NULL, body, (void *)i);
     vs_run();
+    __atomic_store_n(&all_done, 1, __ATOMIC_RELEASE); syscall(SYS_futex, &all_done, FUTEX_WAKE, 64, NULL, NULL, 0);
     for (int i = 0; i < N; i++) pthread_join(th[i], NULL);
     /* all calls have returned: the library must hold no per-thread state */
     int count = snoopy_tsrm_threadRepo_data.count, first_null = snoopy_tsrm_threadRepo_data.first == NULL, last_null = snoopy_tsrm_threadRepo_data.last == NULL;
